@@ -1,4 +1,5 @@
 import CTV.Der.Tlv
+import CTV.Model.CtWire
 /-!
 Model of the TBSCertificate transformations of x509/x509.go (`removeExtension`, `RemoveSCTList`,
 `RemoveCTPoison`, `BuildPrecertTBS`), of the two leaf routes of serialization.go, and of the SCT-list
@@ -402,6 +403,27 @@ def buildPrecertTBS (bs : Bytes) (p : Option PreIssuer) : Option Bytes :=
       | none => some data          -- `tbs.Raw` still holds `data`: the marshaller copies it
       | some p => if p.ctEku then some (marshalTbs (preIssuerEdit p t)) else none
 
+/-- contents octets of the CertificateTransparency extended key usage (arcs regenerated from x509.go) -/
+def ctEkuOid : Bytes := oidContent Gen.oidExtKeyUsageCT
+
+/-- what the code reads from `chain[1]`: the KeyPurposeIds of its extKeyUsage extension (contents octets, in order), its
+`RawIssuer` and the value of its first authority-key-id extension -/
+structure Chain1 where
+  ekus : List Bytes
+  issuer : Tlv
+  aki : Option Bytes
+deriving Repr
+
+/-- `Certificate.ExtKeyUsage` contains `ExtKeyUsageCertificateTransparency` (`ct.IsPreIssuer`, and the `seenCTEKU` loop) -/
+def Chain1.hasCtEku (c : Chain1) : Bool := c.ekus.contains ctEkuOid
+
+def Chain1.pre (c : Chain1) : PreIssuer := ⟨c.issuer, c.aki, c.hasCtEku⟩
+
+/-- the `preIssuer` argument `MerkleTreeLeafFromChain` passes on: `chain[1]` if `IsPreIssuer(chain[1])`, else nil -/
+def preIssuerOf : Option Chain1 → Option PreIssuer
+  | none => none
+  | some c => if c.hasCtEku then some c.pre else none
+
 /-! ### the two leaf routes (serialization.go): the TBSCertificate that goes into the `PreCert` entry, and the
 SubjectPublicKeyInfo that is hashed into `issuer_key_hash` (`rest` = the SubjectPublicKeyInfos of `chain[1:]`) -/
 
@@ -423,54 +445,41 @@ def leafForEmbeddedSCT (tbs : Bytes) (rest : List Bytes) : Option (Bytes × Byte
   | [] => none
   | k1 :: _ => (removeExt sctOid tbs).map (·, k1)
 
-/-! ### the SCT list extension value: `OCTET STRING { SignedCertificateTimestampList }`, RFC 6962 §3.3 -/
+/-! ### the SCT list extension value: `OCTET STRING { SignedCertificateTimestampList }`, RFC 6962 §3.3
 
-structure SctLimits where
-  itemMin : Nat
-  itemMax : Nat
-  listMin : Nat
-  listMax : Nat
+The TLS layer is **not** written here: it is the generic codec `Tls.enc` / `Tls.dec` (CTV/Tls/Codec.lean, the model of
+`tls.Marshal` / `tls.Unmarshal`) at the type regenerated from the struct tags of `x509.SignedCertificateTimestampList`
+and `x509.SerializedSCT` (`CtWire.tSCTList`), which is what C04 relates to RFC 6962. -/
 
-def encSctItems (lim : SctLimits) : List Bytes → Option Bytes
+def sctItemsOfVals : List Tls.Val → Option (List Bytes)
   | [] => some []
-  | s :: rest =>
-    if s.length < lim.itemMin ∨ lim.itemMax < s.length then none
-    else match encSctItems lim rest with
-      | none => none
-      | some r => some (beEnc 2 s.length ++ s ++ r)
+  | .struct [.bytes b] :: vs =>
+    match sctItemsOfVals vs with
+    | some l => some (b :: l)
+    | none => none
+  | _ :: _ => none
 
-/-- `tls.Marshal(SignedCertificateTimestampList{…})` (both length prefixes are two bytes wide) -/
-def marshalSctList (lim : SctLimits) (l : List Bytes) : Option Bytes :=
-  match encSctItems lim l with
-  | none => none
-  | some b => if b.length < lim.listMin ∨ lim.listMax < b.length then none else some (beEnc 2 b.length ++ b)
+/-- the Go value `SignedCertificateTimestampList{SCTList: [{Val: b}…]}` read as the list of its `Val`s (inverse of `CtWire.sctListVal`) -/
+def sctListOfVal : Tls.Val → Option (List Bytes)
+  | .struct [.list vs] => sctItemsOfVals vs
+  | _ => none
 
-def parseSctItemsF (lim : SctLimits) : Nat → Bytes → Option (List Bytes)
-  | _, [] => some []
-  | 0, _ :: _ => none
-  | f + 1, b0 :: bs0 =>
-    if (b0 :: bs0).length < 2 then none
-    else if beDec ((b0 :: bs0).take 2) < lim.itemMin ∨ lim.itemMax < beDec ((b0 :: bs0).take 2) then none
-    else if ((b0 :: bs0).drop 2).length < beDec ((b0 :: bs0).take 2) then none
-    else match parseSctItemsF lim f (((b0 :: bs0).drop 2).drop (beDec ((b0 :: bs0).take 2))) with
-      | none => none
-      | some r => some (((b0 :: bs0).drop 2).take (beDec ((b0 :: bs0).take 2)) :: r)
+/-- `ASN1MarshalSCTs`: `tls.Marshal(SignedCertificateTimestampList{…})`, then `asn1.Marshal([]byte)` — the extension value -/
+def sctExtValue (l : List Bytes) : Option Bytes :=
+  match Tls.enc CtWire.tSCTList (CtWire.sctListVal l) with
+  | .ok b => some (encTlv ⟨[0x04], b⟩)
+  | .error _ => none
 
-/-- `tls.Unmarshal(raw, &SCTList)` with no trailing data -/
-def parseSctList (lim : SctLimits) (bs : Bytes) : Option (List Bytes) :=
-  if bs.length < 2 then none
-  else if beDec (bs.take 2) < lim.listMin ∨ lim.listMax < beDec (bs.take 2) then none
-  else if (bs.drop 2).length ≠ beDec (bs.take 2) then none
-  else parseSctItemsF lim (beDec (bs.take 2)) (bs.drop 2)
-
-/-- `ASN1MarshalSCTs`: the extension value -/
-def sctExtValue (lim : SctLimits) (l : List Bytes) : Option Bytes :=
-  (marshalSctList lim l).map (fun b => encTlv ⟨[0x04], b⟩)
-
-/-- `parseCertificate`'s handling of the extension value: `Certificate.SCTList` -/
-def parseSctExtValue (lim : SctLimits) (v : Bytes) : Option (List Bytes) :=
+/-- `parseCertificate`'s handling of the extension value (`asn1.Unmarshal` into `[]byte` without rest, `tls.Unmarshal` without
+rest): `Certificate.SCTList`; `none` = an error is recorded -/
+def parseSctExtValue (v : Bytes) : Option (List Bytes) :=
   match parseOne v with
-  | some t => if t.tag = [0x04] then parseSctList lim t.val else none
+  | some t =>
+    if t.tag = [0x04] then
+      match Tls.dec CtWire.tSCTList t.val with
+      | .ok (val, []) => sctListOfVal val
+      | _ => none
+    else none
   | none => none
 
 end CTV.Tbs
